@@ -83,7 +83,10 @@ def clone(n, f=None):
                 kw[fld] = clone(v, f)
             else:
                 kw[fld] = v
-        return type(n)(**kw)
+        new = type(n)(**kw)
+        if hasattr(n, 'lineno'):
+            ast.copy_location(new, n)
+        return new
     return n
 
 
@@ -240,18 +243,152 @@ def mentions_key(fn, key='uncovered_nz'):
     return any(isinstance(n, ast.Constant) and n.value == key for n in astx.walk(fn.node))
 
 
+def _is_forwarder(f):
+    """A method that only hands its arguments on (no branching, no stores into containers)."""
+    for st in astx.walk_stmts(astx.strip_doc(f.node.body)):
+        if isinstance(st, (ast.If, ast.For, ast.While, ast.Try, ast.With)):
+            return False
+        if isinstance(st, (ast.Assign, ast.AugAssign)) and \
+                any(not isinstance(t, ast.Name) for t in astx.assigned_targets(st)):
+            return False
+    return True
+
+
+def _stored_names(fnode):
+    out = set()
+    for st in astx.walk_stmts(fnode.body):
+        for t in astx.assigned_targets(st) if isinstance(st, (ast.Assign, ast.AugAssign, ast.AnnAssign, ast.For,
+                                                               ast.With)) else []:
+            if isinstance(t, ast.Name):
+                out.add(t.id)
+    return out
+
+
+def _inline_call(call, callee, caller_names):
+    """Statements equivalent to the statement `self.<callee>(...)`, or None if the helper cannot be inlined."""
+    cn = callee.node
+    if any(isinstance(x, (ast.Return, ast.Yield, ast.YieldFrom, ast.Global, ast.Nonlocal, ast.FunctionDef,
+                          ast.Lambda)) for x in ast.walk(cn) if x is not cn):
+        return None
+    if cn.args.vararg or cn.args.kwarg or cn.args.kwonlyargs:
+        return None
+    b = bind(call, callee)
+    if b is None:
+        return None
+    ps = fparams(callee)
+    defaults = dict(zip(ps[len(ps) - len(cn.args.defaults):], cn.args.defaults)) if cn.args.defaults else {}
+    stored = _stored_names(cn)
+    ren, pre = {}, []
+    for q in ps:
+        a = b.get(q, defaults.get(q))
+        if a is None or q not in b and q not in defaults:
+            return None
+        if isinstance(a, ast.Name) and q not in stored:
+            ren[q] = a.id                      # parameter is just another name for the caller's variable
+        else:
+            nm = q if q not in caller_names else q + '_h'
+            ren[q] = nm
+            pre.append(ast.copy_location(ast.Assign(targets=[ast.Name(id=nm, ctx=ast.Store())], value=clone(a),
+                                                    lineno=call.lineno), call))
+    for loc in stored - set(ps):
+        if loc in caller_names:
+            ren[loc] = loc + '_h'
+
+    def sub(n):
+        if isinstance(n, ast.Name) and n.id in ren:
+            return ast.copy_location(ast.Name(id=ren[n.id], ctx=n.ctx), n)
+        return None
+    return pre + [clone(st, sub) for st in astx.strip_doc(cn.body)]
+
+
+def _set_parents(node, parent):
+    node._parent = parent
+    for ch in ast.iter_child_nodes(node):
+        _set_parents(ch, node)
+
+
+def expanded_funcs(repo, classes):
+    """qualname -> Func for the methods of the Subjac hierarchy, with private audit helpers inlined.
+
+    A statement `self._helper(...)` whose callee (resolved through the MRO) writes info['uncovered_nz'] is
+    replaced by the helper's body inside every method that is not a mere forwarder, so that a method and the
+    bookkeeping it delegates are analysed as one function.  Returns (funcs, fully_inlined_helper_qualnames).
+    """
+    m = repo.module(SUBJAC)
+    cached = getattr(m, '_c13_expanded', None)
+    if cached is not None:
+        return cached
+    from ..core import Func
+    funcs = {qn: f for qn, f in m.funcs.items() if qn.count('.') == 1 and qn.split('.')[0] in classes}
+
+    def lookup(cls, name):
+        for r, q in repo.mro(SUBJAC, cls):
+            if r == SUBJAC and f'{q}.{name}' in funcs:
+                return funcs[f'{q}.{name}']
+        return None
+    used, inlined = {}, {}
+    out = dict(funcs)
+    for qn, f in funcs.items():
+        cls = qn.split('.')[0]
+        forwarder = _is_forwarder(f)
+        caller_names = names(f.node) | set(fparams(f, drop_self=False))
+        changed = [False]
+
+        def expand(body):
+            res = []
+            for st in body:
+                callee = None
+                if isinstance(st, ast.Expr) and isinstance(st.value, ast.Call) and \
+                        astx.path(astx.receiver(st.value)) == 'self':
+                    callee = lookup(cls, astx.callee_attr(st.value))
+                    if callee is not None and (callee is f or not mentions_key(callee)):
+                        callee = None
+                if callee is not None:
+                    used[callee.qualname] = used.get(callee.qualname, 0) + 1
+                    rep = None if forwarder else _inline_call(st.value, callee, caller_names)
+                    if rep is not None:
+                        inlined[callee.qualname] = inlined.get(callee.qualname, 0) + 1
+                        changed[0] = True
+                        res.extend(rep)
+                        continue
+                new = clone(st, lambda n: None)
+                for fld in ('body', 'orelse', 'finalbody'):
+                    sub = getattr(st, fld, None)
+                    if isinstance(sub, list) and sub and isinstance(sub[0], ast.stmt):
+                        setattr(new, fld, expand(sub))
+                if isinstance(st, ast.Try):
+                    for h_old, h_new in zip(st.handlers, new.handlers):
+                        h_new.body = expand(h_old.body)
+                res.append(new)
+            return res
+        if isinstance(f.node, ast.FunctionDef):
+            body = expand(f.node.body)
+            if changed[0]:
+                node = ast.FunctionDef(name=f.node.name, args=f.node.args, body=body, decorator_list=[],
+                                       returns=None, type_comment=None)
+                if 'type_params' in ast.FunctionDef._fields:
+                    node.type_params = []
+                ast.copy_location(node, f.node)
+                _set_parents(node, getattr(f.node, '_parent', None))
+                out[qn] = Func(m, qn, node, f.cls)
+    full = {q for q, n in used.items() if inlined.get(q, 0) == n}
+    m._c13_expanded = (out, full)
+    return m._c13_expanded
+
+
 class Plumbing:
     """Which parameter of which Subjac method carries the audit threshold, and who delegates to whom."""
 
     def __init__(self, repo):
         self.repo = repo
         self.classes = hierarchy(repo)
-        m = repo.module(SUBJAC)
+        self.F, self.inlined_helpers = expanded_funcs(repo, self.classes)
+        F = self.F
         self.thr = {}          # qualname -> threshold parameter name
         self.deleg = []        # (delegator Func, call, callee Func, binding)
         self.problems = []     # (Func, node, why, key, is_bad)
         self.broken = []       # (Func, why): audit sites whose parameters could not be identified
-        self.set_cols = [m.funcs[f'{c}.set_col'] for c in self.classes if f'{c}.set_col' in m.funcs]
+        self.set_cols = [F[f'{c}.set_col'] for c in self.classes if f'{c}.set_col' in F]
         for f in self.set_cols:
             ps = fparams(f)
             if len(ps) < 3:
@@ -267,7 +404,7 @@ class Plumbing:
             for c in astx.calls(f.node):
                 if astx.path(astx.receiver(c)) != 'self':
                     continue
-                callee = repo.lookup(SUBJAC, cls, astx.callee_attr(c))
+                callee = self.lookup(cls, astx.callee_attr(c))
                 if callee is None or not mentions_key(callee):
                     continue
                 b = bind(c, callee)
@@ -283,12 +420,18 @@ class Plumbing:
                                                   'delegator', 'deleg-param', True))
                         self.thr.setdefault(callee.qualname, p)
 
+    def lookup(self, cls, name):
+        """First definer of a method in the MRO of a Subjac class (helper-expanded version)."""
+        for r, q in self.repo.mro(SUBJAC, cls):
+            if r == SUBJAC and f'{q}.{name}' in self.F:
+                return self.F[f'{q}.{name}']
+        return None
+
     def sites(self):
-        m = self.repo.module(SUBJAC)
         out = []
-        for qn, f in m.funcs.items():
-            if '.' not in qn or qn.split('.')[0] not in self.classes or '<locals>' in qn:
-                continue
+        for qn, f in self.F.items():
+            if qn in self.inlined_helpers:
+                continue      # analysed inside each of its callers
             if mentions_key(f):
                 out.append(f)
         return out
@@ -758,7 +901,7 @@ def _rows_of_column(s, gn, rows, roles):
 DENSE_OK = {'DenseSubjac.set_col': 'dense subjac: every row of the column is stored, nothing can be uncovered'}
 
 
-@rule('C13.thread', floor=13)
+@rule('C13.thread', floor=11)
 def thread(repo, out):
     """The threshold handed to _CheckingJacobian reaches the audit of every concrete Subjac class."""
     pl, sites = get_sites(repo)
@@ -789,6 +932,7 @@ def thread(repo, out):
     if not calls:
         raise AnalysisError('_CheckingJacobian.set_col no longer calls subjac.set_col')
     colparam = fparams(sc.fn)[2] if len(fparams(sc.fn)) >= 3 else None
+    good_calls = []
     for n, c in calls:
         a = c.args[2] if len(c.args) >= 3 else None
         kwn = None
@@ -827,19 +971,45 @@ def thread(repo, out):
             else:
                 out.unsure(sc.fn, c, 'column slice is not the (start, end) row range of the `of` variable')
             continue
-        out.ok(sc.fn, c, f'{attr} and rows [{lo.id}:{hi.id}] of the column passed')
+        good_calls.append(c)
+    if len(good_calls) == len(calls):
+        # one instance however many branches the dispatch is written with (3 per-kind calls or one hoisted call)
+        out.ok(sc.fn, good_calls[0], f'{attr} and the (start:end) rows of the column are passed by all '
+               f'{len(calls)} subjac.set_col call(s)')
+        out.count('dispatch_calls', len(calls))
     # every iteration that has a subjac for (of, wrt) audits it exactly once
     loops = {astx.enclosing(n.ast, (ast.For,)) for n, _ in calls}
     if len(loops) == 1 and None not in loops:
         loop = loops.pop()
         hdr = g.nodes_of(loop)[0]
         cn = [n for n, _ in calls]
+        # container the subjacs are fetched from: `subjac = <container>[key]`
+        conts = set()
+        for n, c in calls:
+            r = astx.receiver(c)
+            ri = sc.inline(r, n) if r is not None else None
+            if isinstance(ri, ast.Subscript) and isinstance(ri.value, ast.Name):
+                conts.add(ri.value.id)
+
+        def presence(t):
+            """True/False: outcome of test t on which the key is PRESENT in the subjac container; None: other test."""
+            neg = False
+            while isinstance(t, ast.UnaryOp) and isinstance(t.op, ast.Not):
+                t, neg = t.operand, not neg
+            if isinstance(t, ast.Compare) and len(t.ops) == 1 and isinstance(t.ops[0], (ast.In, ast.NotIn)) and \
+                    isinstance(t.comparators[0], ast.Name) and (not conts or t.comparators[0].id in conts):
+                return isinstance(t.ops[0], ast.In) != neg
+            return None
+        body = set(g.body_nodes(loop))
         member = [t for t in g.where(lambda n: n.kind == 'test' and isinstance(n.ast, ast.If))
-                  if t in set(g.body_nodes(loop)) and isinstance(t.ast.test, ast.Compare) and
-                  isinstance(t.ast.test.ops[0], ast.In)]
-        if len(member) == 1:
-            st = [m for m, lab in g.succ[member[0]] if lab == 'true']
-            w = find_path(g, st, [hdr, g.exit], avoid=cn)
+                  if t in body and presence(t.ast.test) is not None]
+        if member:
+            def edge_ok(n, m, lab):
+                if n in member and lab in ('true', 'false'):
+                    return (lab == 'true') == presence(n.ast.test)     # follow only the key-present outcome
+                return True
+            st = [m for m, lab in g.succ[hdr] if lab == 'true']
+            w = find_path(g, st, [hdr, g.exit], avoid=cn, edge_ok=edge_ok)
             if w is not None:
                 out.bad(sc.fn, member[0].ast, 'a subjac present for (of, wrt) can be skipped without set_col: its '
                         'approximation is neither stored nor audited: ' + g.fmt_path(w), key='audit-dispatch-once')
@@ -892,7 +1062,7 @@ def thread(repo, out):
         out.ok(f, call, f'{thr} forwarded to {callee.qualname}({cthr})')
     # (d) class coverage
     for cls in pl.classes:
-        f = repo.lookup(SUBJAC, cls, 'set_col')
+        f = pl.lookup(cls, 'set_col')
         if f is None:
             if cls in _concrete(repo):
                 out.bad((SUBJAC, cls), repo.cls(SUBJAC, cls), f'{cls} is instantiated by get_subjac_class but has '
@@ -2152,8 +2322,18 @@ def iter_derivs(repo, out):
             ds = ctx.rd.defs(at, e.id)
             if ds == {comp[0]}:
                 return 'above'
-            if ds and all(d.kind == 'stmt' and isinstance(d.ast, ast.Assign) and
-                          isinstance(d.ast.value, ast.Constant) and isinstance(d.ast.value.value, bool) for d in ds):
+            def incon_def(d):
+                if not (d.kind == 'stmt' and isinstance(d.ast, ast.Assign)):
+                    return False
+                v = d.ast.value
+                if isinstance(v, ast.Constant) and isinstance(v.value, bool):
+                    return True       # `flag = False` ... `if key in incon_keys: flag = True`
+                if isinstance(v, ast.Call) and isinstance(v.func, ast.Name) and v.func.id == 'bool' and len(v.args) == 1:
+                    v = v.args[0]
+                return isinstance(v, ast.Compare) and len(v.ops) == 1 and isinstance(v.ops[0], ast.In) and \
+                    isinstance(v.comparators[0], ast.Name) and v.comparators[0].id in ps and \
+                    v.comparators[0].id != nondep      # `flag = key in incon_keys`
+            if ds and all(incon_def(d) for d in ds):
                 return 'incon'
             return None
         if isinstance(e, ast.Compare) and len(e.ops) == 1 and isinstance(e.ops[0], (ast.In, ast.NotIn)) and \
@@ -2837,6 +3017,33 @@ selftest(
          '    abs_at_max = abs_error.flat[max_error_idx]\n',
          '    i = max_error_idx\n    diff_at_idx = x.flat[i] - ref.flat[i]\n    abs_at_max = np.abs(diff_at_idx)\n'),
     Twin('twin-tolviol-max-of-violation', ARR, '    max_error = diff.flat[max_error_idx]\n', '    max_error = diff.max()\n'),
+    # ---- behaviour-preserving refactors that must be decided ok (robustness round: benign/C13_1..3)
+    Twin('twin-dispatch-hoisted-call-early-continue', DJAC,
+         "            if key in subjacs:\n                subjac = subjacs[key]\n                info = subjac.info\n                if info['diagonal']:\n                    " + _DISPATCH +
+         "\n                    if directional:\n                        info['directional'] = True\n                elif info['cols'] is not None:\n                    " + _DISPATCH +
+         "\n                    if directional:\n                        info['directional'] = True\n                        continue\n                else:\n                    " + _DISPATCH + "\n",
+         "            if key not in subjacs:\n                continue\n\n            subjac = subjacs[key]\n            info = subjac.info\n            has_sparsity = info['diagonal'] or info['cols'] is not None\n\n            " + _DISPATCH +
+         "\n\n            if has_sparsity and directional:\n                info['directional'] = True\n"),
+    Twin('twin-audit-bookkeeping-extracted-helper', SUBJAC,
+         "            raise ValueError(f\"Can't set sparse subjac with value of type {type(val).__name__}.\")\n",
+         "            raise ValueError(f\"Can't set sparse subjac with value of type {type(val).__name__}.\")\n\n"
+         "    def _record_uncovered_nz(self, icol, column, covered_rows, uncovered_threshold):\n"
+         "        arr = column.copy()\n        arr[covered_rows] = 0.  # zero out the rows that are covered by sparsity\n"
+         "        nzs = np.where(np.abs(arr) > uncovered_threshold)[0]\n        if nzs.size > 0:\n            info = self.info\n"
+         "            if 'uncovered_nz' not in info:\n                info['uncovered_nz'] = []\n                info['uncovered_threshold'] = uncovered_threshold\n"
+         "            info['uncovered_nz'].extend(list(zip(nzs, icol * np.ones_like(nzs))))\n",
+         also=[(SUBJAC, "            arr = column.copy()\n            arr[row_inds] = 0.  # zero out the rows that are covered by sparsity\n            " + _NZ + "\n            if nzs.size > 0:\n" + _GUARD3,
+                "            self._record_uncovered_nz(icol, column, row_inds, uncovered_threshold)"),
+               (SUBJAC, "            arr = column.copy()\n            arr[rowinds] = 0.  # zero out the rows that are covered by sparsity\n            " + _NZ + "\n            if nzs.size > 0:\n" + _GUARD3,
+                "            self._record_uncovered_nz(icol, column, rowinds, uncovered_threshold)"),
+               (SUBJAC, "            arr = column.copy()\n            arr[rowinds] = 0.  # zero out the rows that are covered by sparsity\n            " + _NZ + "\n            if nzs.size > 0:\n" + _GUARD3,
+                "            self._record_uncovered_nz(icol, column, rowinds, uncovered_threshold)")]),
+    Twin('twin-iter-flag-expression-demorgan-keywords', SYSTEM,
+         "        inconsistent = False\n        derivative_info = derivatives[key]\n\n        if totals:\n            fd_opts = all_fd_opts\n        else:\n            _, wrt = key\n            fd_opts = all_fd_opts[wrt]\n\n        if key in incon_keys:\n            inconsistent = True\n",
+         "        derivative_info = derivatives[key]\n\n        if not totals:\n            _, wrt = key\n            fd_opts = all_fd_opts[wrt]\n        else:\n            fd_opts = all_fd_opts\n\n        inconsistent = key in incon_keys\n",
+         also=[(SYSTEM, 'totals,\n                                          abs_error_tol, rel_error_tol)', 'totals,\n                                          atol=abs_error_tol, rtol=rel_error_tol)'),
+               (SYSTEM, 'if key in nondep_derivs and not above_tol:', 'if not above_tol and key in nondep_derivs:'),
+               (SYSTEM, 'if show_only_incorrect and not (above_tol or inconsistent):', 'if show_only_incorrect and not above_tol and not inconsistent:')]),
     Twin('twin-tolviol-flipped-compare', ARR, 'np.any(diff > 0.)', 'np.any(0 < diff)'),
     Twin('twin-slots-or-assignment', SYSTEM, _TV_REV + '\n                above_tol |= above', _TV_REV + '\n                above_tol = above_tol or above'),
     Twin('twin-slots-temporaries', SYSTEM, _TV_REV, 'tv, vals, above, abs_errs.reverse, rel_errs.reverse = \\\n                    get_tol_violation(Jreverse, Jfd, atol, rtol)\n                errs.reverse = tv\n                err_vals.reverse = vals'),
